@@ -203,7 +203,9 @@ package forwarder
 // ---------------------------------------------------------------------------------------------
 //@ macro pset(f) = ks_i32[f.pausedProtocols]
 //@ func (f *Forwarder) GetPausedProtocols(ctx) (ids, err)
-//@   requires[inv] f != nil
+//@   requires[inv] f != nil && storedProtocolsOK(f)
+//@   ensures[C17] forall j int trigger(ids[j]) :: 0 <= j && j < len(ids) ==> okProto(ids[j])
+//@   ensures[C17] forall i int, j int trigger(ids[i], ids[j]) :: 0 <= i && i < j && j < len(ids) ==> ids[i] != ids[j]
 //@   walk 0 invariant[C17] len(paused) == widx && forall j int :: 0 <= j && j < widx ==> paused[j] == enumAtI32(pset(f), j)
 //@   ensures[C17] err == nil ==> len(ids) == enumLenI32(pset(f)) && forall j int trigger(ids[j]) :: 0 <= j && j < len(ids) ==> ids[j] == enumAtI32(pset(f), j)
 //@   ensures[C17] err == nil && enumFactsI32(pset(f))       // the callback never fails, Walk (A-COLL-OK) neither; enumeration facts handed on (A-COLL-ENUM)
@@ -211,7 +213,9 @@ package forwarder
 
 //@ macro cset(f) = ks_pair[f.pausedCrossChains]
 //@ func (f *Forwarder) GetAllPausedCrossChainIDs(ctx) (ids, err)
-//@   requires[inv] f != nil
+//@   requires[inv] f != nil && storedCrossChainsOK(f)
+//@   ensures[C17] forall j int trigger(ids[j]) :: 0 <= j && j < len(ids) ==> ids[j] != nil && vcc(deref(ids[j]))
+//@   ensures[C17] forall i int, j int trigger(ids[i], ids[j]) :: 0 <= i && i < j && j < len(ids) ==> deref(ids[i]) != deref(ids[j])
 //@   walk 0 invariant[C17] len(crossChainIDs) == widx
 //@   walk 0 invariant[C17] forall j int trigger(crossChainIDs[j]) :: 0 <= j && j < widx ==> crossChainIDs[j] != nil && allocated(crossChainIDs[j]) && deref(crossChainIDs[j]).ProtocolId == enumAtP(cset(f), j).key1 && deref(crossChainIDs[j]).CounterpartyId == enumAtP(cset(f), j).key2
 //@   ensures[C17] err == nil && enumFactsP(cset(f)) && len(ids) == enumLenP(cset(f))
